@@ -58,7 +58,23 @@ def build(c, ws, origin, unsaved):
     f0 = c["files"][origin]
     ops = []
     shift = {}
-    if unsaved:
+    if unsaved == "open":
+        # every file in the request's scope is OPENED with a text that differs from the file on disk (a restored buffer)
+        for i in scope_files(c, ws, origin):
+            n = c["files"][i]["name"]
+            ops.append({"op": "open", "file": n, "text": PREFIX + files[n]})
+            shift[n] = 2
+    elif unsaved == "closed":
+        # every other file in scope was edited and then closed WITHOUT saving: it is the file on disk again
+        for i in scope_files(c, ws, origin):
+            n = c["files"][i]["name"]
+            if i == origin:
+                continue
+            ops.append({"op": "open", "file": n, "text": files[n]})
+            ops.append({"op": "change", "file": n, "text": PREFIX + files[n]})
+            ops.append({"op": "close", "file": n})
+        ops.append({"op": "open", "file": f0["name"], "text": files[f0["name"]]})
+    elif unsaved:
         # every file in the request's scope is open and carries an unsaved edit at its top
         for i in scope_files(c, ws, origin):
             n = c["files"][i]["name"]
@@ -214,12 +230,19 @@ def main(args):
     else:
         cases = wcommon.gen(run, 40 if not thorough else 800, maxtx=2)
         combos = []
+        ntriple = 0
         for c in cases:
             for ws in (False, True):
                 for origin in range(len(c["files"])):
                     combos.append((c, ws, origin, False))
-                    if (len(combos) + run.seed) % 3 == 0 or thorough:
+                    ntriple += 1
+                    k = (ntriple + run.seed) % 6
+                    if k == 0 or k == 3 or thorough:
                         combos.append((c, ws, origin, True))
+                    if k == 1 or thorough:
+                        combos.append((c, ws, origin, "open"))
+                    if k == 4 or thorough:
+                        combos.append((c, ws, origin, "closed"))
     built = [build(c, ws, origin, unsaved) for (c, ws, origin, unsaved) in combos]
     hcs = [dict(b[0], id=str(i)) for i, b in enumerate(built)]
     results = run.harness("script", hcs, timeout=3400)
@@ -233,7 +256,7 @@ def main(args):
             run.diverge("panic", "server panicked: " + res["panic"][:300], case, None)
             continue
         for sig, what in evaluate(run, c, ws, origin, unsaved, hc, probes, shift, res):
-            tag = ("unsaved:" if unsaved else "") + sig
+            tag = ("unsaved:" if unsaved is True else (unsaved + ":") if unsaved else "") + sig
             table[(tag, ws, "root" if origin == 0 else "included")] += 1
             run.diverge(tag, "%s  [workspace root %s, unsaved edits %s, files %s]" % (what, ws, unsaved, [f["name"] for f in c["files"]]), case, None)
     if os.environ.get("VERIF_TABLE"):
@@ -247,7 +270,7 @@ def main(args):
                 "(references with and without declarations on every occurrence, rename once per symbol); non-trivial = the file has at least one symbol; distinct by (files, root, origin, unsaved)")
     run.assumptions = ["every file is a member of main.journal's include tree; commodities occur in amounts, costs, assertions and commodity directives (no P / D directives in these workspaces)",
                        "a quoted commodity may be reported and replaced with or without its quotes",
-                       "unsaved edits are typed through didChange after didOpen of the file as saved"]
+                       "unsaved edits are typed through didChange after didOpen of the file as saved, or arrive with didOpen itself (a text that differs from the file); a document closed without saving is the file on disk again"]
     run.finish(confirm=lambda d: confirm(run, d))
 
 
@@ -258,5 +281,5 @@ def confirm(run, d):
     res = run.harness("script", [hc])[0]
     if "panic" in res:
         return d["sig"] == "panic"
-    tag = "unsaved:" if cs["unsaved"] else ""
+    tag = "unsaved:" if cs["unsaved"] is True else (cs["unsaved"] + ":") if cs["unsaved"] else ""
     return any(tag + sig == d["sig"] for sig, _ in evaluate(run, cs["spec_case"], cs["ws"], cs["origin"], cs["unsaved"], hc, probes, shift, res))
